@@ -50,6 +50,65 @@ theorem langString_append (env : String → Lang) (α β : GString) (w : List St
       · rintro ⟨u, v, rfl, ⟨u1, u2, rfl, h1, h2⟩, hv⟩
         exact ⟨u1, u2 ++ v, by simp, h1, (ih _).mpr ⟨u2, v, rfl, h2, hv⟩⟩
 
+/-! ### the `Strings` algebra (restated as `C01_*` in Props/C01.lean) -/
+
+theorem langStrings_append (env : String → Lang) (s1 s2 : Strings) (w : List String) :
+    langStrings env (s1 ++ s2) w ↔ Lang.union (langStrings env s1) (langStrings env s2) w := by
+  simp only [langStrings, Lang.union, List.mem_append]
+  constructor
+  · rintro ⟨α, h | h, hw⟩
+    · left; exact ⟨α, h, hw⟩
+    · right; exact ⟨α, h, hw⟩
+  · rintro (⟨α, h, hw⟩ | ⟨α, h, hw⟩)
+    · exact ⟨α, Or.inl h, hw⟩
+    · exact ⟨α, Or.inr h, hw⟩
+
+theorem langStrings_append_nil (env : String → Lang) (s : Strings) (w : List String) :
+    langStrings env (s ++ [[]]) w ↔ Lang.union (langStrings env s) Lang.eps w := by
+  rw [langStrings_append]
+  simp only [Lang.union, langStrings, List.mem_singleton]
+  constructor
+  · rintro (h | ⟨α, rfl, hw⟩)
+    · left; exact h
+    · right; exact hw
+  · rintro (h | h)
+    · left; exact h
+    · right; exact ⟨[], rfl, h⟩
+
+theorem langStrings_juxtapose (env : String → Lang) (s1 s2 : Strings) (w : List String) :
+    langStrings env (s1.flatMap fun α => s2.map fun β => α ++ β) w ↔
+      Lang.cat (langStrings env s1) (langStrings env s2) w := by
+  simp only [langStrings, Lang.cat, List.mem_flatMap, List.mem_map]
+  constructor
+  · rintro ⟨γ, ⟨α, hα, β, hβ, rfl⟩, hw⟩
+    obtain ⟨u, v, rfl, hu, hv⟩ := (langString_append env α β w).mp hw
+    exact ⟨u, v, rfl, ⟨α, hα, hu⟩, ⟨β, hβ, hv⟩⟩
+  · rintro ⟨u, v, rfl, ⟨α, hα, hu⟩, ⟨β, hβ, hv⟩⟩
+    exact ⟨α ++ β, ⟨α, hα, β, hβ, rfl⟩, (langString_append env α β _).mpr ⟨u, v, rfl, hu, hv⟩⟩
+
+theorem langStrings_atoms (env : String → Lang) (a A : String) (w : List String) :
+    (langStrings env [[.t a]] w ↔ w = [a]) ∧ (langStrings env [[.nt A]] w ↔ env A w) := by
+  simp only [langStrings, List.mem_singleton, exists_eq_left, langString, Lang.cat, Lang.eps]
+  constructor
+  · constructor
+    · rintro ⟨u, v, rfl, rfl, rfl⟩; rfl
+    · intro h; exact ⟨[a], [], by simp [h], rfl, rfl⟩
+  · constructor
+    · rintro ⟨u, v, rfl, hu, rfl⟩; simpa using hu
+    · intro h; exact ⟨w, [], by simp, h, rfl⟩
+
+theorem langStrings_key (env : String → Lang) (s1 s2 : Strings) (h : eqStrings s1 s2 = true) (w : List String) :
+    langStrings env s1 w ↔ langStrings env s2 w := by
+  simp only [eqStrings, Bool.and_eq_true, List.all_eq_true, stringsContains, List.any_eq_true, beq_iff_eq] at h
+  simp only [langStrings]
+  constructor
+  · rintro ⟨α, hα, hw⟩
+    obtain ⟨β, hβ, rfl⟩ := h.1 α hα
+    exact ⟨β, hβ, hw⟩
+  · rintro ⟨α, hα, hw⟩
+    obtain ⟨β, hβ, rfl⟩ := h.2 α hα
+    exact ⟨β, hβ, hw⟩
+
 /-- the bodies of `A` -/
 def alts (P : List GProd) (A : String) : Strings := (P.filter (fun p => p.head == A)).map (·.body)
 
@@ -325,5 +384,98 @@ def shapeLang (k : Kind) (A : Lang) : Lang :=
   | .opt => fun w => A w ∨ w = []
   | .star => Star A
   | .plus => Plus A
+
+/-! ### the operator shapes in the least fixed point (restated as `C01_group` … `C01_operator` in Props/C01.lean) -/
+
+theorem lang_group (P : List GProd) (N : String) (s : Strings)
+    (hshape : ∀ β, ⟨N, β⟩ ∈ P ↔ β ∈ s) (w : List String) :
+    L P N w ↔ langStrings (L P) s w := by
+  rw [L_fix]
+  constructor <;> rintro ⟨α, hα, hw⟩
+  · exact ⟨α, (hshape α).mp (mem_alts.mp hα), hw⟩
+  · exact ⟨α, mem_alts.mpr ((hshape α).mpr hα), hw⟩
+
+theorem lang_opt (P : List GProd) (N : String) (s : Strings)
+    (hshape : ∀ β, ⟨N, β⟩ ∈ P ↔ β ∈ s ∨ β = []) (w : List String) :
+    L P N w ↔ langStrings (L P) s w ∨ w = [] := by
+  rw [L_fix]
+  constructor
+  · rintro ⟨α, hα, hw⟩
+    rcases (hshape α).mp (mem_alts.mp hα) with h | rfl
+    · exact Or.inl ⟨α, h, hw⟩
+    · exact Or.inr hw
+  · rintro (⟨α, hα, hw⟩ | rfl)
+    · exact ⟨α, mem_alts.mpr ((hshape α).mpr (Or.inl hα)), hw⟩
+    · exact ⟨[], mem_alts.mpr ((hshape []).mpr (Or.inr rfl)), rfl⟩
+
+theorem lang_star (P : List GProd) (N : String) (s : Strings)
+    (hshape : ∀ β, ⟨N, β⟩ ∈ P ↔ (∃ α ∈ s, β = prepend N α) ∨ β = []) (w : List String) :
+    L P N w ↔ Star (langStrings (L P) s) w := by
+  constructor
+  · rintro ⟨n, hn⟩
+    induction n generalizing w with
+    | zero => exact absurd hn (by simp [genN])
+    | succ n ih =>
+      obtain ⟨β, hβ, hw⟩ := hn
+      rcases (hshape β).mp (mem_alts.mp hβ) with ⟨α, hα, rfl⟩ | rfl
+      · obtain ⟨u, v, rfl, hu, hv⟩ := hw
+        exact (ih u hu).snoc ⟨α, hα, langString_mono (genN_L P n) α v hv⟩
+      · have : w = [] := hw
+        subst this; exact Star.nil
+  · intro h
+    -- read right to left: a star word is a shorter star word followed by one more element, or empty
+    have key : ∀ w, Star (langStrings (L P) s) w → ∀ v, langStrings (L P) s v → L P N w → L P N (w ++ v) := by
+      intro w _ v ⟨α, hα, hv⟩ hw
+      exact (L_fix P N _).mpr ⟨prepend N α, mem_alts.mpr ((hshape _).mpr (Or.inl ⟨α, hα, rfl⟩)), w, v, rfl, hw, hv⟩
+    have base : L P N [] := (L_fix P N _).mpr ⟨[], mem_alts.mpr ((hshape []).mpr (Or.inr rfl)), rfl⟩
+    -- left-to-right star as an accumulation from the left
+    have acc : ∀ w, Star (langStrings (L P) s) w → ∀ p, L P N p → L P N (p ++ w) := by
+      intro w hw
+      induction hw with
+      | nil => intro p hp; simpa using hp
+      | cons a b ha _ ih =>
+        intro p hp
+        rw [← List.append_assoc]
+        obtain ⟨α, hα, hv⟩ := ha
+        exact ih (p ++ a) ((L_fix P N _).mpr
+          ⟨prepend N α, mem_alts.mpr ((hshape _).mpr (Or.inl ⟨α, hα, rfl⟩)), p, a, rfl, hp, hv⟩)
+    simpa using acc w h [] base
+
+theorem lang_plus (P : List GProd) (N : String) (s : Strings)
+    (hshape : ∀ β, ⟨N, β⟩ ∈ P ↔ (∃ α ∈ s, β = prepend N α) ∨ β ∈ s) (w : List String) :
+    L P N w ↔ Plus (langStrings (L P) s) w := by
+  constructor
+  · rintro ⟨n, hn⟩
+    induction n generalizing w with
+    | zero => exact absurd hn (by simp [genN])
+    | succ n ih =>
+      obtain ⟨β, hβ, hw⟩ := hn
+      rcases (hshape β).mp (mem_alts.mp hβ) with ⟨α, hα, rfl⟩ | hβs
+      · obtain ⟨u, v, rfl, hu, hv⟩ := hw
+        exact (ih u hu).snoc ⟨α, hα, langString_mono (genN_L P n) α v hv⟩
+      · exact ⟨w, [], by simp, ⟨β, hβs, langString_mono (genN_L P n) β w hw⟩, Star.nil⟩
+  · rintro ⟨u, v, rfl, ⟨α, hα, hu⟩, hv⟩
+    have first : L P N u := (L_fix P N _).mpr ⟨α, mem_alts.mpr ((hshape α).mpr (Or.inr hα)), hu⟩
+    have acc : ∀ w, Star (langStrings (L P) s) w → ∀ p, L P N p → L P N (p ++ w) := by
+      intro w hw
+      induction hw with
+      | nil => intro p hp; simpa using hp
+      | cons a b ha _ ih =>
+        intro p hp
+        rw [← List.append_assoc]
+        obtain ⟨α', hα', hv'⟩ := ha
+        exact ih (p ++ a) ((L_fix P N _).mpr
+          ⟨prepend N α', mem_alts.mpr ((hshape _).mpr (Or.inl ⟨α', hα', rfl⟩)), p, a, rfl, hp, hv'⟩)
+    exact acc v hv u first
+
+
+theorem lang_operator (P : List GProd) (k : Kind) (n : String) (s : Strings)
+    (hshape : ∀ β, ⟨n, β⟩ ∈ P ↔ ShapeMem k n s β) (w : List String) :
+    L P n w ↔ shapeLang k (langStrings (L P) s) w := by
+  cases k with
+  | group => exact lang_group P n s hshape w
+  | opt => exact lang_opt P n s hshape w
+  | star => exact lang_star P n s hshape w
+  | plus => exact lang_plus P n s hshape w
 
 end Emerge.Props.C01
